@@ -29,3 +29,88 @@ def canon(ans):
         if toks:
             out.append(toks)
     return ("ok", tuple(out))
+
+
+# (B) failure class (printed by `drv_c12 spec`) -> id of the finding
+CLASS_TO_FINDING = {
+    "meaning:cond-multiline": "C12-conditional-multiline-first-line-only",
+    "syntax:missing-comma": "C12-u2-u3-text-malformed",
+    "syntax:stray-semicolon": "C12-u2-u3-text-malformed",
+    "syntax:double-minus": "C12-negative-angle-double-minus",
+    "meaning:measure-all-basis-not-restored": "C12-measure-all-xy-not-rotated-back",
+    "meaning:empty-control": "C12-empty-control-exported-unconditionally",
+    "meaning:target-beyond-controls": "C12-target-bits-beyond-controls-ignored",
+    "meaning:repeated-control": "C12-repeated-control-bit-negated-twice",
+    "syntax:named-parameter": "C12-reference-parameter-by-name",
+    "syntax:unevaluated-hole": "C12-reference-parameter-by-name",
+    "syntax:bundle-multiline": "C12-kron-bundle-around-anything",
+    "syntax:bundle-empty-slot": "C12-kron-bundle-around-anything",
+    "syntax:nested-bundle": "C12-kron-bundle-around-anything",
+    "meaning:nested-loop": "C12-nested-loop-subcircuits-do-not-nest",
+    "meaning:ccrz-relative-phase": "C12-ccrz-template-is-ccu1",
+    "panic:condition-bit-without-qubit": "C12-condition-bit-without-qubit-panic",
+    "panic:malformed-gate-operands": "C12-malformed-gate-operands-panic",
+    "panic:more-than-64-controls": "C12-more-than-64-controls-panic",
+}
+for _n in ("ch", "crz", "cu2", "cv", "cvdg"):
+    CLASS_TO_FINDING["syntax:unknown-instruction:" + _n] = "C12-not-a-cqasm-instruction"
+
+
+def classify(fl):
+    return CLASS_TO_FINDING.get(fl.get("class", ""))
+
+
+def nontrivial(req, ans):
+    # a circuit with at least two operations that was exported, or any refused / panicking export
+    return req.count("|") >= 2 or not ans.startswith("ok")
+
+
+SPEC = {
+    "tables": ["CQasmTemplates"],
+    "props_module": PROPS_MODULE,
+    "required": ["cq_structure", "cq_structure_err", "cq_structure_panic", "cq_refuses", "cq_not_bracketing",
+                 "cq_not_restores", "cq_bracketing_agrees_with_circuit", "templates_as_modelled", "cq_const1_plain",
+                 "cq_const1_conditional", "cq_const2_plain", "cq_const2_conditional", "cq_const_multi_plain",
+                 "cq_param_rx", "cq_param_ry", "cq_param_rz", "cq_param_u1", "cq_param_cu1",
+                 "cq_param_cry_blocks_partial", "cq_param_crx_blocks_partial",
+                 "neg_repeated_control_bit", "neg_target_beyond_controls", "neg_conditional_multiline",
+                 "neg_measure_all_basis_not_restored", "neg_empty_control", "neg_nested_loop", "neg_unknown_instruction",
+                 "neg_kron_bundle", "neg_parameter_text", "neg_panics", "neg_ccrz_block_is_u1"],
+    "drivers": ["drv_c12"],
+    "harness_bin": "c12",
+    "canon": canon,
+    "spec_check": vlib.spec_via_driver("drv_c12"),
+    "classify": classify,
+    "nontrivial": nontrivial,
+    "rule": "fixed witnesses of every defect class and of the smallest right behaviours; every library gate (H X Y Z S Sdg T Tdg V Vdg I "
+            "RX RY RZ U1 U2 U3 CX CY CZ Swap CH CRX CRY CRZ CS CSdg CT CTdg CU1 CU2 CU3 CV CVdg CCRX CCRY CCRZ CCX CCZ) with positive, "
+            "negative, exotic (1e22, 1e300, 1e-300, 5e-324, -0, 2^53+1) , reference and random parameters: plain on a generic state, "
+            "conditional on one measured bit, conditional on two bits with all four targets, as a Kron part, inside a Composite and a Loop, "
+            "inside a conditional Composite; 2500 (quick) / 30000 (thorough) random circuits on 0..5 qubits with 1..12 operations of every "
+            "CircuitOp kind (gates incl. C<dyn>, Kron, Composite, Loop, nesting depth 3; conditional gates with empty / repeated / "
+            "over-long control lists and targets beyond the list; measure X/Y/Z; measure_all X/Y/Z incl. permuted and short bit lists; "
+            "peek; peek_all; reset; reset_all; barrier; mis-sized operand lists; NaN/inf parameters), half of them restricted to the gates "
+            "and shapes whose translation is expected to be right. (A) compares token sequences per non-blank line, numbers by value. "
+            "(B) parses the implementation's text with Spec/CQ1, checks well-formedness and compares, per register word, the unnormalised "
+            "mixed state of the program's branches with that of the circuit's Born branches (circuits of <= 3 qubits, <= 256 branches, "
+            "finite parameters, operands that can be simulated). Non-trivial = circuit with >= 2 operations, or an export that was refused "
+            "or panicked.",
+    "exhaustive": False,
+}
+
+
+def run(ctx):
+    vlib.standard_flow(ctx, SPEC)
+    ctx.assumptions += [
+        "cq_wellformed / cq_equiv (the property for all circuits outside the defect classes) is NOT proved: outside the classes it is "
+        "checked by (B) on every generated case; proved are the structure of the export, the refusals, the `not` bracketing, the meaning "
+        "of the constant gates' translations (exactly, through the model's own text) and of the parametrised ones listed in Props/C12",
+        "cq_param_cry_blocks_partial, cq_param_crx_blocks_partial: block level only (that cnot = 1 (+) X and 1 (x) A = A (+) A assemble "
+        "the blocks is not formalised); CU3, CCRX, CCRY, CSdg, CTdg templates: identity not proved, checked numerically by (B)",
+        "Spec/CQ1 is my reading of cQASM 1.0 written from memory (crk = controlled phase pi/2^k; measure_x/measure_y rotate back; a "
+        "sub-circuit header `.name(k)` extends to the next header, so `.end` opens a sub-circuit called `end`; bundles are one line, of "
+        "instructions, not nested; one sign per numeric literal)",
+        "f64::to_string is not modelled digit by digit: the model prints the exact decimal expansion and numeric tokens are compared by "
+        "value (every decimal text that reads back as the same double is equivalent); Expression::parse/eval is the C14 model",
+        "debug-profile overflow checks are on (`1 << shift` with shift = 64 panics); Vec/slice semantics are list semantics",
+    ]
